@@ -62,7 +62,13 @@ CLAIMS["C02"] = {
             "the storage walk of get_membership_proof / get_non_membership_proof returns exactly the canonical trie's proofs "
             "(membershipProof_refines, nonMembershipProof_refines — false for a query that properly extends a leaf label, see the "
             "kernel-checked counterexample; unreachable with 256-bit labels, noProperPrefix_of_256). The correspondence run compares "
-            "every real LookupProof field by field with the model's and the real lookup_verify result with the specification.",
+            "every real LookupProof field by field with the model's and the real lookup_verify result with the specification. BATCH "
+            "LOOKUP: Dir.batchLookup mirrors batch_lookup's structure (all lookup infos first, one root hash, then the proofs); it "
+            "succeeds iff every single lookup succeeds and then returns exactly the single lookups' proofs with the same epoch and "
+            "root hash (batchLookup_sound, batchLookup_complete, batchLookup_fails), hence verifies per label to the "
+            "specification's answer in every state reached by publishes (batch_lookup_complete), and fails when a label was "
+            "never published (batch_lookup_unpublished); tied to the Rust by dir.batchlookup / spec.batchlookup lines (all "
+            "published labels, random sub-batches with repeats, a batch with an unpublished label, the empty batch).",
     "note": BASE_NOTE,
 }
 CLAIMS["C03"] = {
